@@ -82,9 +82,11 @@ var propRules = map[string]*PropSpec{
 		Technique:  techOwn,
 	},
 	"C04": {
-		Rules:       []string{"F7", "F1", "A1.api32", "F12", "U4", "R2", "LP1", "U5", "CUR1", "CUR2", "CUR3", "CUR4", "CUR5", "U10"},
+		Rules:       []string{"F7", "F1", "A1.api32", "F12", "U4", "R2", "LP1", "U5", "CUR1", "CUR2", "CUR3", "CUR4", "CUR5", "U10", "U1", "CUR6"},
 		Explanation: explBase + " C04: the early-termination clause and the purity of iteration are decided; kind dispatch in iterator init / Iterate / Ranges is exhaustive.",
 		Decided: []string{
+			"a cursor method that steps the chunk position reloads the cursor before the key field is read again (in particular in the condition of the loop that does the stepping)",
+			"the per-container unset and run iterators do not step past a run with 16-bit arithmetic that is widened afterwards (last()+1 wraps to 0 at the end of the chunk and the iterator starts the chunk again)",
 			"no 16-bit sum or difference is compared as it is (it wraps at 65535 / 0); start+length of one interval and two triaged key±1 comparisons between strictly ordered keys are the only sites",
 			"the batch iterators ask the inner iterator for more only behind a test that the caller's buffer has room, so that a zero answer can only mean an exhausted chunk",
 			"an iterator glues the key of the current chunk/bucket to what the inner iterator yields only when no reload of the cursor lies between the two reads",
@@ -162,9 +164,10 @@ var propRules = map[string]*PropSpec{
 		Technique:  "static analysis: taint propagation of caller-owned slices over go/ssa + ownership typestate",
 	},
 	"C09": {
-		Rules:       []string{"F3.32", "F8.bitmap", "F8.run", "F2", "V1", "V2", "A6.kernel", "A2.32", "A3.32", "F8.scratch", "A2.64", "A3.64", "F3.64", "L2", "L5", "F2.repair", "R1", "B5", "F13.32", "A9", "RES1", "U1", "V3", "F8.point", "LEN1", "R3", "U10", "L9"},
+		Rules:       []string{"F3.32", "F8.bitmap", "F8.run", "F2", "V1", "V2", "A6.kernel", "A2.32", "A3.32", "F8.scratch", "A2.64", "A3.64", "F3.64", "L2", "L5", "F2.repair", "R1", "B5", "F13.32", "A9", "RES1", "U1", "V3", "F8.point", "LEN1", "R3", "U10", "L9", "A4"},
 		Explanation: explBase + " C09: the producer side of each Validate conjunct that has a structural form (no empty chunk stored, array/bitmap threshold, runs minimised, lazy cardinality repaired) and the validator's own conjunct table.",
 		Decided: []string{
+			"memory handed in by the caller (FromDense without copy, zero-copy decode, frozen view) is stored only in containers whose slot is flagged copy-on-write: otherwise two library-made bitmaps over the same words corrupt each other's cached cardinality and one of them stops validating",
 			"the portable reader reads a non-run chunk as bitmap words exactly when it announces more than 4096 values (evaluated at 4096 and 4097, where both payloads have the same length and an off-by-one stays in step with the stream)",
 			"no 16-bit sum or difference is compared as it is (it wraps at 65535 / 0); start+length of one interval and two triaged key±1 comparisons between strictly ordered keys are the only sites",
 			"roaring64 buckets obey the same ownership and no-empty-bucket rules",
@@ -268,9 +271,10 @@ var propRules = map[string]*PropSpec{
 		Technique:  techMix,
 	},
 	"C17": {
-		Rules:       []string{"A2.64", "A3.64", "F3.64", "F5", "F9", "A1.api64", "A5", "F12", "P6", "P2", "U1", "F10", "EQ1", "R2", "IDX1", "A2.stale", "LEN1", "F5.neg", "R3", "U5", "CUR1", "CUR2", "CUR3", "CUR4", "GAL1", "CACHE1", "CUR5", "SW1", "LOW1", "U11", "U12", "IX0"},
+		Rules:       []string{"A2.64", "A3.64", "F3.64", "F5", "F9", "A1.api64", "A5", "F12", "P6", "P2", "U1", "F10", "EQ1", "R2", "IDX1", "A2.stale", "LEN1", "F5.neg", "R3", "U5", "CUR1", "CUR2", "CUR3", "CUR4", "GAL1", "CACHE1", "CUR5", "SW1", "LOW1", "U11", "U12", "IX0", "CUR6"},
 		Explanation: explBase + " C17: the 64-bit bitmap's bucket table obeys the same ownership discipline (bucket = container), drops emptied buckets, inserts at the right index and its aggregates return fresh bitmaps.",
 		Decided: []string{
+			"a cursor method that steps the chunk position reloads the cursor before the key field is read again (in particular in the condition of the loop that does the stepping)",
 			"exported functions read a fixed position of a caller's slice (the first value of AddMany, the first bitmap of an aggregate) only behind a test of its length",
 			"in the 64-bit bitmap a 64-bit quantity is cut to 32 bits only if it is a widened / shifted / masked 32-bit value or an upper-bound comparison on it dominates the cut (Select's running index against the bucket cardinality)",
 			"end-1 of a caller-supplied unsigned range end is computed only where the end is known to be positive (behind the empty-range exit, a zero test or a clamp)",
